@@ -2,3 +2,7 @@ import NrfModel.Basic
 import NrfModel.Net.Addr
 import NrfModel.Drv.Util
 import NrfModel.Drv.Net
+import NrfModel.Radio
+import NrfModel.Air
+import NrfModel.Rf24
+import NrfModel.Drv.Rf
